@@ -754,6 +754,14 @@ def grad_call(sess, op, step, out, stats, log):
             noise = grad_noise_floor(sess, d, list(free), which == "sensitivityIV") + 3.0 * fd_spread
         except refsolve.RefSolveError:
             noise = 3.0 * fd_spread
+        try:
+            # evaluation noise of the finite difference when the cost is steep in the prediction: the trajectory
+            # behind cost() is known to ~1.5e-8 relative, i.e. 1e-2 of the 2e-6 that loss_slack is computed for
+            _, yhat_ = ref_cost(sess, d, list(free))
+            hvec = 1e-4 * np.maximum(1.0, np.abs(free))
+            noise = noise + 0.02 * loss_slack(d, yhat_) / hvec
+        except Exception:
+            pass
     if got.shape != want.shape:
         out.append(fail("C07.shape.%s" % which, step, "%s returned shape %s, %d free variables" % (label, got.shape, len(free))))
         return
